@@ -586,6 +586,7 @@ impl<'a, W: Write + 'a> ser::Serializer for &'a mut Serializer<W> {
             }
             Some(NonNativeType::LazyValue) => {
                 // We just need to write the bytes
+                self.non_native_type = None;
             }
             // Timestamp should be handled by i64
             Some(NonNativeType::Timestamp)
